@@ -127,6 +127,24 @@ Lam(a, b, c, v) == DotBI(CrossB(DiffB(b, a), DiffB(c, a)), v)
 LamDens(a, b, c) == << a[4], a[4], b[4], c[4] >>
 TurnsCCW(a, b, c, v) == BSign(Lam(a, b, c, v)) > 0
 
+(* Resolution guard.  The code merges points closer than fixed absolute tolerances (1e-5 in *)
+(* prune_degenerate_points, 1e-8 in trimesh): the property is judged only when distinct     *)
+(* vertices of the shape are at least 1/SepFine = 1e-4 length units apart (10x the larger   *)
+(* tolerance).  Cell(h, q, c) is coordinate c of h (units 1/q) in units of 1/SepDen of the  *)
+(* length unit, rounded down: cells that differ by 2 or more in some coordinate prove a     *)
+(* distance > 1/SepDen in plain integers; the few remaining pairs are compared exactly.     *)
+SepDen == 1000
+SepFine == 10000
+ASSUME NB * SepDen < 2147483647 /\ DB * 1000 < 2147483647
+Cell(h, q, c) == (h[c] * SepDen) \div (h[4] * q)          \* |h[c]| <= NB, h[4] <= DB, q <= 1000
+CoarselyApart(a, b, q) == \E c \in 1..3 : AbsI(Cell(a, q, c) - Cell(b, q, c)) >= 2
+ExactlyApart(a, b, q) ==      \* |a - b|^2 * SepFine^2 >= (a4 b4 q)^2
+  LET d == DiffB(a, b)
+      den == BMul(BMul(BI(a[4]), BI(b[4])), BI(q))
+  IN BLe(BMul(den, den),
+         BMul(BAdd(BAdd(BMul(d[1], d[1]), BMul(d[2], d[2])), BMul(d[3], d[3])), BI(SepFine * SepFine)))
+Separated(V, q) == \A a \in V : \A b \in V : a # b => (CoarselyApart(a, b, q) \/ ExactlyApart(a, b, q))
+
 (* ---- volume enclosure ------------------------------------------------------- *)
 (* floor division of a magnitude (little-endian base-10^4 limbs) by 1 <= k <= 214748        *)
 RECURSIVE DivMagR(_, _, _, _)
